@@ -76,7 +76,7 @@ namespace Givaro {
         else
             mpz_mod_ui( (mpz_ptr)&(res.gmp_rep), (mpz_srcptr)&n1.gmp_rep, -n2);
 
-        assert(!(res<0) && (res<std::abs(n2)));
+        assert(!(res<0) && (res<((n2>0)?(uint64_t)n2:-(uint64_t)n2))); // |n2| as unsigned: std::abs(INT64_MIN) wraps
         return res;
 #endif
     }
@@ -183,7 +183,8 @@ namespace Givaro {
         }
 
         // std::cout << res << ',' << l << ',' << *this << std::endl;
-        assert((res<GIVABS(l)) && (res> -GIVABS(l)) && (((res>0)?1:((res==0)?0:-1))*(*this).priv_sign()>=0)) ;
+        // |l| and |res| as unsigned: GIVABS(INT64_MIN) wraps
+        assert(((uint64_t)GIVABS(res)<((l>0)?(uint64_t)l:-(uint64_t)l)) && (((res>0)?1:((res==0)?0:-1))*(*this).priv_sign()>=0)) ;
         return res;
     }
 
